@@ -490,3 +490,23 @@ Definition flight13_credential (k : cfg13) (v : pview) : bool :=
   (* a client that was given nothing but a pre-shared key requires the peer to know that key; a DTLS 1.3
      handshake of this stack never proves that *)
   && (p_from_client v || negb (k_psk_only k)).
+
+(* ================================================================ DTLS 1.3: a flight that is not complete yet
+
+   pullProtectedHandshakeFlight hands a protected flight to the checks above only once its Finished
+   is there (the Finished rule is not optional); until then the flight parser returns "keep reading".
+   Nothing else completes the handshake of the side that still waits for the peer's final flight - in
+   particular not an ACK: a server whose Flight 4 has been acknowledged completely still has to
+   receive and verify the client's Finished (and certificate, when the policy asks for one).
+
+   THE SWITCH below is [false] in the code; [true] is the behaviour of seeded change C03d (fsm13.go
+   transitionAfterACK: the server counts its Flight 4 as its last flight and finishes on a complete
+   ACK), kept as a regression witness. *)
+Definition server13_ack_of_own_flight_completes : bool := false.
+
+Definition flight13_pending_with (ack_completes : bool) (fin_msg acked_all : bool) (k : cfg13) (v : pview) : verdict :=
+  if fin_msg then flight13 k v
+  else if ack_completes && acked_all && p_from_client v then Accept else Wait.
+
+Definition flight13_pending : bool -> bool -> cfg13 -> pview -> verdict :=
+  flight13_pending_with server13_ack_of_own_flight_completes.
